@@ -13,6 +13,40 @@ def SlotOK (cap : Cap) (p : Pool) : Prop :=
   | .fin n => ∃ v, p.sem.value = .fin v ∧ v + heldL p.tasks + grantsL p.sem.waiters = n
   | .inf => p.sem.value = .inf ∧ p.sem.waiters = []
 
+/-- the part of a task record the invariants talk about (everything else — scheduling flags, the awaited future,
+`must_cancel`, pending exception, gather slots — is "soft") -/
+structure SoftP where
+  phase : Phase
+  released : Bool
+  nCC : Nat
+  nEC : Nat
+  wasCancelled : Bool
+  endCb : CbSpec
+  cancelCb : CbSpec
+deriving DecidableEq
+
+def _root_.Taskpool.PTask.soft (k : PTask) : SoftP :=
+  ⟨k.phase, k.released, k.nCC, k.nEC, k.wasCancelled, k.endCb, k.cancelCb⟩
+
+/-- the life cycle of one task, as far as callbacks are concerned (`lost` = the pool's ghost bit, DESIGN §4.3) -/
+structure OKs (lost : Bool) (s : SoftP) : Prop where
+  e0 : s.released = false → s.nEC = 0
+  e1 : s.nEC ≤ 1
+  c1 : s.nCC ≤ 1
+  c0 : (s.phase = .created ∨ s.phase = .inWorker) → s.nCC = 0 ∧ s.wasCancelled = false
+  cw : s.nCC = 1 → s.wasCancelled = true
+  cc : s.phase = .inCancelCb → s.nCC = 1 ∧ s.cancelCb = .coro
+  ec : s.phase = .inEndCb → s.nEC = 1 ∧ s.endCb = .coro ∧ s.released = true
+  ord : s.nEC = 1 → s.wasCancelled = true → s.cancelCb ≠ .none → s.nCC = 1
+  cn : s.cancelCb = .none → s.nCC = 0
+  en : s.endCb = .none → s.nEC = 0
+  fin : s.phase = .finished → lost = false →
+          s.released = true ∧ s.nEC = (if s.endCb = .none then 0 else 1) ∧
+          (s.wasCancelled = true → s.nCC = (if s.cancelCb = .none then 0 else 1)) ∧
+          (s.wasCancelled = false → s.nCC = 0)
+
+def LifeOK (p : Pool) : Prop := ∀ (t : Nat) (tk : PTask), p.tasks[t]? = some tk → OKs p.lost tk.soft
+
 def PhaseOK (p : Pool) : Prop :=
   ∀ (t : Nat) (tk : PTask), p.tasks[t]? = some tk → NYR tk.phase = true → tk.released = false
 
@@ -55,6 +89,7 @@ structure Good (cap : Cap) (p : Pool) : Prop where
   phase : PhaseOK p
   reg : RegOK p
   grp : GroupsOK p
+  life : LifeOK p
 
 /-- `q` is `p` up to changes that neither move a slot nor put a task (back) into a slot-holding phase -/
 structure Tame (p q : Pool) : Prop where
@@ -67,8 +102,12 @@ structure Tame (p q : Pool) : Prop where
   lost : q.lost = p.lost
   wnil : p.sem.waiters = [] → q.sem.waiters = []
   gfl : (flat q.groups).Sublist (flat p.groups)
-  pt : ∀ (t : Nat) (tk' : PTask), q.tasks[t]? = some tk' →
-        ∃ tk : PTask, p.tasks[t]? = some tk ∧ tk'.released = tk.released ∧ (tk'.phase = tk.phase ∨ NYR tk'.phase = false)
+  soft : ∀ (t : Nat) (tk' : PTask), q.tasks[t]? = some tk' → ∃ tk : PTask, p.tasks[t]? = some tk ∧ tk'.soft = tk.soft
+
+theorem Tame.pt {p q : Pool} (h : Tame p q) (t : Nat) (tk' : PTask) (ht : q.tasks[t]? = some tk') :
+    ∃ tk : PTask, p.tasks[t]? = some tk ∧ tk'.released = tk.released ∧ (tk'.phase = tk.phase ∨ NYR tk'.phase = false) := by
+  obtain ⟨tk, a, b⟩ := h.soft t tk' ht
+  exact ⟨tk, a, congrArg SoftP.released b, Or.inl (congrArg SoftP.phase b)⟩
 
 /-! ### list facts -/
 
@@ -127,20 +166,15 @@ theorem getElem?_modify_some {α} (l : List α) (t i : Nat) (f : α → α) (y :
 /-! ### Tame: algebra -/
 
 theorem Tame.refl (p : Pool) : Tame p p :=
-  ⟨rfl, rfl, rfl, rfl, rfl, rfl, rfl, fun h => h, List.Sublist.refl _, fun _ tk' h => ⟨tk', h, rfl, Or.inl rfl⟩⟩
+  ⟨rfl, rfl, rfl, rfl, rfl, rfl, rfl, fun h => h, List.Sublist.refl _, fun _ tk' h => ⟨tk', h, rfl⟩⟩
 
 theorem Tame.trans {p q r : Pool} (h1 : Tame p q) (h2 : Tame q r) : Tame p r := by
   refine ⟨h2.val.trans h1.val, h2.grants.trans h1.grants, h2.len.trans h1.len, h2.run.trans h1.run,
     h2.can.trans h1.can, h2.fin.trans h1.fin, h2.lost.trans h1.lost, fun h => h2.wnil (h1.wnil h), h2.gfl.trans h1.gfl, ?_⟩
   intro t tk'' h
-  obtain ⟨tk', hq, hr', hp'⟩ := h2.pt t tk'' h
-  obtain ⟨tk, hp, hr, hph⟩ := h1.pt t tk' hq
-  refine ⟨tk, hp, hr'.trans hr, ?_⟩
-  rcases hp' with e | n
-  · rcases hph with e2 | n2
-    · exact Or.inl (e.trans e2)
-    · exact Or.inr (by rw [e]; exact n2)
-  · exact Or.inr n
+  obtain ⟨tk', hq, e2⟩ := h2.soft t tk'' h
+  obtain ⟨tk, hp, e1⟩ := h1.soft t tk' hq
+  exact ⟨tk, hp, e2.trans e1⟩
 
 theorem Tame.held {p q : Pool} (h : Tame p q) : heldL q.tasks = heldL p.tasks :=
   heldL_eq_of_pointwise _ _ h.len (fun t tk' ht => by
@@ -205,8 +239,34 @@ theorem GroupsOK.of_eq {p q : Pool} (hr : GroupsOK p) (hg : q.groups = p.groups)
 theorem Tame.grp {p q : Pool} (h : Tame p q) (hr : GroupsOK p) : GroupsOK q :=
   ⟨h.gfl.nodup hr.nd, fun i hi => by rw [h.len]; exact hr.lt i (h.gfl.subset hi)⟩
 
+theorem LifeOK.of_eq {p q : Pool} (hl : LifeOK p) (ht : q.tasks = p.tasks) (h4 : q.lost = p.lost) : LifeOK q := by
+  intro t tk h; rw [ht] at h; rw [h4]; exact hl t tk h
+
+theorem LifeOK.lostMono {p q : Pool} (hl : LifeOK p) (ht : q.tasks = p.tasks) (hm : p.lost = true → q.lost = true) :
+    LifeOK q := by
+  intro t tk h
+  rw [ht] at h
+  have h1 := hl t tk h
+  cases hq : q.lost with
+  | true => exact ⟨h1.e0, h1.e1, h1.c1, h1.c0, h1.cw, h1.cc, h1.ec, h1.ord, h1.cn, h1.en, fun _ hl' => by cases hl'⟩
+  | false =>
+    cases hp : p.lost with
+    | true => rw [hm hp] at hq; cases hq
+    | false => rw [hp] at h1; exact h1
+
+theorem oks_new (lost : Bool) (ph : Phase) (ecb ccb : CbSpec) (hph : ph = .created) :
+    OKs lost ⟨ph, false, 0, 0, false, ecb, ccb⟩ := by
+  subst hph
+  exact ⟨fun _ => rfl, by simp, by simp, fun _ => ⟨rfl, rfl⟩, fun h => by simp at h, fun h => by simp at h,
+    fun h => by simp at h, fun h => by simp at h, fun _ => rfl, fun _ => rfl, fun h => by simp at h⟩
+
+theorem Tame.life {p q : Pool} (h : Tame p q) (hl : LifeOK p) : LifeOK q := by
+  intro t tk' ht
+  obtain ⟨tk, a, b⟩ := h.soft t tk' ht
+  rw [b, h.lost]; exact hl t tk a
+
 theorem Tame.good {cap : Cap} {p q : Pool} (h : Tame p q) (hg : Good cap p) : Good cap q :=
-  ⟨h.slot hg.slot, h.phase hg.phase, h.reg hg.reg, h.grp hg.grp⟩
+  ⟨h.slot hg.slot, h.phase hg.phase, h.reg hg.reg, h.grp hg.grp, h.life hg.life⟩
 
 /-- released flag of a task is preserved along a tame change -/
 theorem Tame.released {p q : Pool} (h : Tame p q) (t : Nat) (tk : PTask) (hp : p.tasks[t]? = some tk) :
@@ -222,7 +282,7 @@ theorem tame_of_eq (p q : Pool) (hs : q.sem = p.sem) (ht : q.tasks = p.tasks)
     (h3 : q.ended = p.ended := by rfl) (h4 : q.lost = p.lost := by rfl)
     (h5 : (flat q.groups).Sublist (flat p.groups) := by exact List.Sublist.refl _) : Tame p q := by
   refine ⟨by rw [hs], by rw [hs], by rw [ht], h1, h2, h3, h4, by rw [hs]; exact fun h => h, h5, ?_⟩
-  intro t tk' h; rw [ht] at h; exact ⟨tk', h, rfl, Or.inl rfl⟩
+  intro t tk' h; rw [ht] at h; exact ⟨tk', h, rfl⟩
 
 namespace Pool
 
@@ -243,14 +303,16 @@ namespace Pool
 @[simp] theorem schedOpt_sem (p : Pool) (o) : (p.schedOpt o).sem = p.sem := by cases o <;> rfl
 @[simp] theorem schedOpt_tasks (p : Pool) (o) : (p.schedOpt o).tasks = p.tasks := by cases o <;> rfl
 
-/-- a task update that keeps `released` and does not enter a slot-holding phase -/
+/-- a task update that changes only soft fields -/
 theorem tame_modTask (p : Pool) (t : Nat) (f : PTask → PTask)
-    (hr : ∀ x, (f x).released = x.released) (hp : ∀ x, (f x).phase = x.phase ∨ NYR (f x).phase = false) :
-    Tame p (p.modTask t f) := by
+    (hs : ∀ x, (f x).soft = x.soft := by intro x; rfl) : Tame p (p.modTask t f) := by
   refine ⟨rfl, rfl, by simp [modTask], rfl, rfl, rfl, rfl, fun h => h, List.Sublist.refl _, ?_⟩
   intro i tk' h
   obtain ⟨x, hx, rfl⟩ := getElem?_modify_some p.tasks t i f tk' h
-  refine ⟨x, hx, ?_, ?_⟩ <;> split <;> simp_all
+  refine ⟨x, hx, ?_⟩
+  split
+  · exact hs x
+  · rfl
 
 theorem tame_modReq (p : Pool) (m f) : Tame p (p.modReq m f) := tame_of_eq _ _ rfl rfl
 theorem tame_modApi (p : Pool) (m f) : Tame p (p.modApi m f) := tame_of_eq _ _ rfl rfl
@@ -261,7 +323,7 @@ theorem tame_logEv (p : Pool) (r) : Tame p (p.logEv r) := tame_of_eq _ _ rfl rfl
 theorem tame_schedTask (p : Pool) (t) : Tame p (p.schedTask t) := by
   unfold schedTask
   exact Tame.trans (q := p.modTask t fun x => { x with sched := true })
-    (tame_modTask p t _ (fun _ => rfl) (fun _ => Or.inl rfl)) (tame_emitRef _ _)
+    (tame_modTask p t _) (tame_emitRef _ _)
 theorem tame_schedMeta (p : Pool) (m) : Tame p (p.schedMeta m) := (tame_modReq p m _).trans (tame_emitRef _ _)
 theorem tame_schedApi (p : Pool) (a) : Tame p (p.schedApi a) := (tame_modApi p a _).trans (tame_emitRef _ _)
 theorem tame_schedOpt (p : Pool) (o) : Tame p (p.schedOpt o) := by
@@ -294,15 +356,15 @@ theorem tame_taskCancel (p : Pool) (t) : Tame p (p.taskCancel t) := by
     · exact Tame.refl p
     · split
       · exact Tame.trans (q := p.modTask t fun k => { k with fut := .cancelled })
-          (tame_modTask p t _ (fun _ => rfl) (fun _ => Or.inl rfl)) (tame_schedTask _ _)
-      · exact tame_modTask p t _ (fun _ => rfl) (fun _ => Or.inl rfl)
+          (tame_modTask p t _) (tame_schedTask _ _)
+      · exact tame_modTask p t _
 
 theorem tame_cancelTask (p : Pool) (t) : Tame p (p.cancelTask t) := by
   unfold cancelTask
   split
   · exact Tame.refl p
   · split
-    · exact tame_modTask p t _ (fun _ => rfl) (fun _ => Or.inl rfl)
+    · exact tame_modTask p t _
     · exact tame_taskCancel p t
 
 theorem grantsL_cancelWaiterL (m : Nat) (ws : List Waiter) : grantsL (cancelWaiterL m ws) = grantsL ws := by
@@ -318,7 +380,7 @@ theorem grantsL_cancelWaiterL (m : Nat) (ws : List Waiter) : grantsL (cancelWait
 theorem tame_cancelPoolWaiter (p : Pool) (m : Nat) :
     Tame p ({ p with sem := { p.sem with waiters := cancelWaiterL m p.sem.waiters } } : Pool) :=
   ⟨rfl, grantsL_cancelWaiterL m _, rfl, rfl, rfl, rfl, rfl, fun h => by simp [h, cancelWaiterL], List.Sublist.refl _,
-   fun _ tk' h => ⟨tk', h, rfl, Or.inl rfl⟩⟩
+   fun _ tk' h => ⟨tk', h, rfl⟩⟩
 
 theorem tame_metaCancel (p : Pool) (m) : Tame p (p.metaCancel m) := by
   unfold metaCancel
